@@ -19,7 +19,23 @@ are PROVED at the call; the re-slicing `rem = &mut rem[copy_len..]` is real text
 Verifier facts used (Verus 0.2026.09.13, new-style `&mut`): a closure may take a `&mut [u8]` by move and its `ensures` may speak of
 `final(buf)`; a closure that is DROPPED UNCALLED leaves `final(buf)` unconstrained - hence (a) the contents clauses are stated for
 n > 0 only (for n == 0 the callback is not called: trivially nothing is touched, but that is not expressible), and (b) the axiom
-`axiom_mut_slice_len` (the slice behind a `&mut [u8]` never changes its length: Rust type system) is ASSUMED."""
+`axiom_mut_slice_len` (the slice behind a `&mut [u8]` never changes its length: Rust type system) is ASSUMED.
+
+read_obj: `MaybeUninit::<T>::uninit()` / `assume_init()` resolve to a model type (size_of::<T>() bytes of storage); the window
+`unsafe { from_raw_parts_mut(obj.as_mut_ptr() as *mut u8, N) }` is abstracted (ABSTRACT, logged) by `vx_uninit_bytes_mut(&mut obj, N)`
+with the PROVED precondition N <= size_of::<T>().  `read_exact` (std default method) is a hand copy of the std text, VERIFIED on top of
+the extracted `read` and canaried (opt-in `Raw.canary`, vx/build.py).  Result: Ok iff size_of::<T>() bytes remain, then the cursor
+advances by exactly that and the value's image is the next bytes of the request; on Err std's read_exact has consumed ALL remaining
+bytes ([C04.reader.read_obj.short_consumes_rest] - what the code does; confirmed on the real crate).
+
+write_vectored / write_obj (C17): rules R40 / R42 (fold, filter in `for`), the contract of `write` as proved in unit virtiofsw, std's
+`write_all` as a verified + canaried hand copy.  Whatever happens the dirty log grows by exactly the addresses the cursor moved over;
+a request beyond the remaining space fails with nothing moved and nothing marked.
+
+from_descriptor_chain / new: rule R28 (`for d in ITER` -> `while let Some(d) = it.next()`), models of GuestMemory / GuestMemoryRegion /
+DescriptorChain written from vm-memory 0.17.1 / virtio-queue 0.17.0 (ASSUMED), one SIG abstraction (`MS<'a, M::Target>` -> `MS<M::Target>`).
+Result: exactly the readable (writable) descriptors, one slice each at the host address of its guest address, inside its region, in
+chain order, nothing consumed, total length <= usize::MAX - the chain-length invariant the other clauses take as hypothesis."""
 from vx.api import Unit, Fn, Copy, Raw, Group
 from vx.units import iobuffers as IO
 from vx.units import virtiofsw as VW
@@ -379,7 +395,7 @@ def chain_fn(scope, name, which, op):
            splices=[('let mut buffers = VecDeque::with_capacity(64);', 'after', 'let ghost ds = %s;' % DS)])
     INV = '''
             invariant
-                buffers@.len() <= ds.len(), d_it.rem() =~= ds.skip(buffers@.len() as int),
+                buffers@.len() <= ds.len(), d_it.rem() =~= ds.skip(buffers@.len() as int), // [C04.%(op)s.loop.the_descriptors_of_this_direction]
                 total_len == chain_cells(mem, ds.take(buffers@.len() as int)).len(), // [C04.%(op)s.loop.length]
                 cells(buffers@) =~= chain_cells(mem, ds.take(buffers@.len() as int)), // [C04.%(op)s.loop.cells]
                 forall|i: int| 0 <= i < buffers@.len() ==> #[trigger] buffers@[i].addr() == mem.host_of(ds[i].a) && buffers@[i].slen() == ds[i].l && ds[i].l <= mem.room(ds[i].a), // [C04.%(op)s.loop.slices]
